@@ -21,7 +21,7 @@ func init() {
 }
 
 func runRoundTrip(o opts, out *Output, sig int) {
-	out.Imports = "From Verif Require Import Base.ListX Obf.Obfuscate Otlp.Equiv Otap.Tables Otap.Attrs."
+	out.Imports = "From Verif Require Import Base.ListX Obf.Obfuscate Otlp.Equiv Otlp.Ids Otap.Tables Otap.Attrs."
 	var tb strings.Builder
 	tb.WriteString("Definition table_cases : list tcase := [\n")
 	nt := 0
@@ -31,6 +31,7 @@ func runRoundTrip(o opts, out *Output, sig int) {
 	var sb strings.Builder
 	sb.WriteString("Definition rt_cases : list (list tree * list tree) := [\n")
 	nc := 0
+	var idLines []string
 	for c := 0; c < o.n; c++ {
 		g := &OGen{r: r.Fork(), Wide: r.Chance(25), Mono: monoPick(r)}
 		var options []cfgpkg.Option
@@ -99,6 +100,9 @@ func runRoundTrip(o opts, out *Output, sig int) {
 			case pmetric.Metrics:
 				in = metricsItems(d)
 			}
+			if len(idLines) < 400 {
+				idCases(data, out, fmt.Sprintf("C0%d", sig+1), &idLines)
+			}
 			res := pr.produce(data)
 			if res.Class != "ok" {
 				stats["producer_"+res.Class]++
@@ -126,6 +130,12 @@ Definition rt_propfail := Eval vm_compute in failing (fun c : list tree * list t
 Print rt_propfail.
 `)
 	out.Lists = append(out.Lists, "rt_propfail")
+	idParts := strings.SplitN(idCheckCoq, "Definition id_check", 2)
+	out.Coq.WriteString(idParts[0])
+	out.Coq.WriteString("Definition id_cases : list (list (N * list N) * idobj * list N) := [\n" + strings.Join(idLines, ";\n") + "\n].\n")
+	out.Coq.WriteString("Definition id_check" + idParts[1])
+	out.Lists = append(out.Lists, "id_mismatch")
+	stats["id_cases"] = len(idLines)
 	if sig < 2 {
 		tb.WriteString("\n].\n")
 		// the type tcase is defined in the check text; emit definitions in order
